@@ -21,3 +21,17 @@ prop("C11", "Key-to-slot computation agrees with Redis Cluster for every key", "
        "thorough": {"checks": 20000000, "shards": 16, "timeout": 1500},
        "fuzz": [{"target": "FuzzC11", "time": "90s", "timeout": 400}]}],
      BASE_ASSUME + ["ref/hashslot written from the cluster specification; unit-checked against CRC16('123456789')=0x31C3 and CLUSTER KEYSLOT examples"])
+
+prop("C12", "Stream decoding is lossless and its offsets equal the bytes consumed", "exploration",
+     "a case = 1-8 multi-bulk commands (1-300 arguments; empty, CRLF/RESP-looking, NUL/0xFF, random, and repeated-chunk arguments up to ~80 KB quick / ~4.8 MB thorough; "
+     "optional bare '\\n' before a command) encoded by the reference encoder, a bufio size from {16..65536} and a cyclic schedule of read-fragment sizes; "
+     "non-trivial = some argument is larger than the bufio buffer and larger than every read fragment (it spans several underlying reads); distinct = sha1 of the case. "
+     "Oracle: generated argument bytes; running sum of reference-encoded lengths == decoder offset after each command; EOF afterwards; client.Encode and proto.Writer.WriteArgs output byte-identical to the reference encoding; integers written as decimal text.",
+     [{"pkg": "c12", "test": "TestC12",
+       "quick": {"checks": 20000, "shards": 4, "timeout": 300},
+       "thorough": {"checks": 400000, "shards": 16, "timeout": 1800},
+       "fuzz": [{"target": "FuzzC12", "time": "90s", "timeout": 400}]},
+      {"pkg": "c12", "test": "TestC12Ints",
+       "quick": {"checks": 20000, "shards": 1, "timeout": 300},
+       "thorough": {"checks": 500000, "shards": 2, "timeout": 900}}],
+     BASE_ASSUME + ["ref/resp reference RESP encoder"])
